@@ -168,6 +168,10 @@ pub fn replay(r: &Value) -> Result<String, (String, String)> {
             let mut rng = Rng::keyed(r["seed"].as_u64().unwrap_or(1), "C12/history", r["index"].as_u64().unwrap_or(0));
             c12_history(&mut rng, r["size"].as_u64().unwrap_or(1) as usize, 1100, &mut Default::default()).map(|_| "history deterministic".to_string())
         }
+        "pair-history" => {
+            let mut rng = Rng::keyed(r["seed"].as_u64().unwrap_or(1), "C16/history", r["index"].as_u64().unwrap_or(0));
+            crate::pimon::check_two_call_history(&mut rng, &mut Default::default()).map(|_| "history handled as specified".to_string()).map_err(|m| ("pair:history".to_string(), m))
+        }
         "eventfan" => {
             let mut rng = Rng::keyed(r["seed"].as_u64().unwrap_or(1), "C15/segpair", r["index"].as_u64().unwrap_or(0));
             crate::sweepmon::check_event_fan(&mut rng, &mut Default::default()).map(|_| "fan ordered consistently".to_string()).map_err(|m| ("ordering:fan".to_string(), m))
